@@ -152,7 +152,7 @@ func vFmt(format string, a ...interface{}) string { return fmt.Sprintf(format, a
 // every Write call is recorded.
 type vWire struct {
 	chunks      []string
-	pos         int
+	pos, off    int
 	readErr     error // returned once the chunks are exhausted (default io.EOF)
 	written     []string
 	failWriteAt int // index of the Write call that fails (-1: never)
@@ -161,15 +161,20 @@ type vWire struct {
 
 func vNewWire(chunks ...string) *vWire { return &vWire{chunks: chunks, failWriteAt: -1} }
 
+// Read delivers the next chunk (or the rest of a chunk larger than p).
 func (w *vWire) Read(p []byte) (int, error) {
+	for w.pos < len(w.chunks) && w.off >= len(w.chunks[w.pos]) {
+		w.pos++
+		w.off = 0
+	}
 	if w.pos >= len(w.chunks) {
 		if w.readErr != nil {
 			return 0, w.readErr
 		}
 		return 0, io.EOF
 	}
-	n := copy(p, w.chunks[w.pos])
-	w.pos++
+	n := copy(p, w.chunks[w.pos][w.off:])
+	w.off += n
 	return n, nil
 }
 
